@@ -1124,3 +1124,31 @@ package mocrelay
 //@ func RouterHandler.ServeNostr$1
 //@   serves C13
 //@   assert @exit: calledcount(cancel) >= 1
+
+// ---------------------------------------------------------------------------------------------
+// C20: HTTP front door
+
+//@ func Relay.ServeHTTP
+//@   serves C20
+//@   trusted session glue (goroutines, WebSocket upgrade): only "the request was handed to the relay" is recorded
+//@   requires relay != nil
+//@   writes ghost(routed, r)
+//@   ensures g(routed, r) == 1
+
+//@ func NIP11.ServeHTTP
+//@   serves C20
+//@   requires nip11 != nil && r != nil && !has(respHeader(w), "Content-Type") && !has(respHeader(w), "Access-Control-Allow-Origin")
+//@   writes ghost(routed, r), ghost(wbytes, w), ghost(wstatus, w), ghost(wtext, w), contents(respHeader(w))
+//@   promises g(routed, r) == 2
+//@   ensures[C20] (old(wantsNIP11(r)) && g(wstatus, refof(w)) == old(g(wstatus, refof(w)))) ==> (g(wbytes, refof(w)) == jsonOf(box(nip11, any)) && hdrGet(respHeader(w), "Content-Type") == "application/nostr+json" && hdrGet(respHeader(w), "Access-Control-Allow-Origin") == "*")
+//@   ensures[C20] !old(wantsNIP11(r)) ==> g(wstatus, refof(w)) == 400
+
+//@ func ServeMux.ServeHTTP
+//@   serves C20
+//@   requires mux != nil && r != nil && mux.Relay != nil
+//@   requires mux.NIP11 != nil ==> (!has(respHeader(w), "Content-Type") && !has(respHeader(w), "Access-Control-Allow-Origin"))
+//@   ensures[C20] old(isUpgrade(r)) ==> (g(routed, r) == 1 && g(wtext, refof(w)) == old(g(wtext, refof(w))))
+//@   ensures[C20] (!old(isUpgrade(r)) && old(wantsNIP11(r)) && mux.NIP11 != nil) ==> g(routed, r) == 2
+//@   ensures[C20] (!old(isUpgrade(r)) && old(wantsNIP11(r)) && mux.NIP11 == nil) ==> (g(wtext, refof(w)) == "{}" && g(routed, r) == old(g(routed, r)))
+//@   ensures[C20] (!old(isUpgrade(r)) && !old(wantsNIP11(r)) && mux.Default != nil) ==> g(routed, r) == 3
+//@   ensures[C20] (!old(isUpgrade(r)) && !old(wantsNIP11(r)) && mux.Default == nil) ==> (g(wtext, refof(w)) == "Hello Mocrelay (｀･ω･´)！" && g(routed, r) == old(g(routed, r)))
